@@ -60,6 +60,29 @@ impl<'a> BodyRules<'a> {
 }
 fn is_lit_2usize(e: &Expr) -> bool { norm(&e.to_token_stream().to_string()) == "2usize" }
 impl<'a> VisitMut for BodyRules<'a> {
+    // rule A: `V.append(&mut CALL(..));`  ->  `let mut __appN = CALL(..); V.append(&mut __appN);` (the temporary gets a name, evaluation order unchanged)
+    fn visit_block_mut(&mut self, b: &mut syn::Block) {
+        visit_mut::visit_block_mut(self, b);
+        let mut out: Vec<syn::Stmt> = vec![];
+        for st in b.stmts.drain(..) {
+            let mut done = false;
+            if let syn::Stmt::Expr(Expr::MethodCall(m), Some(_)) = &st {
+                if m.method == "append" && m.args.len() == 1 && matches!(&*m.receiver, Expr::Path(_)) {
+                    if let Expr::Reference(r) = &m.args[0] { if r.mutability.is_some() && matches!(&*r.expr, Expr::MethodCall(_) | Expr::Call(_)) {
+                        let n = *self.rules.dropped.get("A:append-temp").unwrap_or(&0);
+                        let id = quote::format_ident!("__app{}", n);
+                        let inner = &r.expr; let recv = &m.receiver;
+                        out.push(parse_quote!(let mut #id = #inner;));
+                        out.push(parse_quote!(#recv.append(&mut #id);));
+                        *self.rules.dropped.entry("A:append-temp".into()).or_default() += 1;
+                        done = true;
+                    } }
+                }
+            }
+            if !done { out.push(st); }
+        }
+        b.stmts = out;
+    }
     fn visit_expr_mut(&mut self, e: &mut Expr) {
         visit_mut::visit_expr_mut(self, e);
         let mut repl: Option<Expr> = None;
